@@ -3,8 +3,10 @@ CONSTANTS
   Accounts <- Acc3
   Denoms <- Den2
   CoinLists <- ListsQ
+  MetaDenoms = {"d1"}
+  MetaVals = {"m1", "m2"}
   Cap = 2
 VIEW view
 INVARIANTS TypeOK Conservation
-PROPERTIES FailExactly MovesExactly SupplyExactly
+PROPERTIES FailExactly MovesExactly SupplyExactly MetaFrame
 CHECK_DEADLOCK FALSE
